@@ -55,6 +55,7 @@ func c02One(ctx *vh.Ctx, c *c02Case) error {
 		WF  *bool `json:"wf"`
 		WF2 *bool `json:"wf2"`
 		WF3 *bool `json:"wf3"`
+		GWF *bool `json:"gwf"`
 	}
 	_ = json.Unmarshal(raw, &hyp)
 	if hyp.WF == nil || !*hyp.WF {
@@ -70,6 +71,14 @@ func c02One(ctx *vh.Ctx, c *c02Case) error {
 		return nil
 	}
 	ctx.Res.Dist("wf2-hypothesis=true")
+	// the definition-level hypothesis (well_formed_graph_compiles_to_well_formed_runner): every
+	// all-predecessor graph eino's Compile accepts must satisfy GraphDefWF
+	if hyp.GWF == nil || !*hyp.GWF {
+		ctx.Res.Dist("graphdef-wf=false")
+		ctx.Res.Disagree(vh.Disagreement{Signature: "C02:graphdef-wf", What: "eino compiled and ran this all-predecessor graph, but the definition does not satisfy GraphDefWF (distinct keys other than START/END, edge targets and branch ends exist, acyclic) — the hypothesis of the compiled_graph_* theorems", Case: c, Model: model, Impl: impl})
+		return nil
+	}
+	ctx.Res.Dist("graphdef-wf=true")
 	// third hypothesis (dag_result_schedule_independent, Props/C03.lean): counted only
 	ctx.Res.Dist(fmt.Sprintf("wf3-hypothesis=%v", hyp.WF3 != nil && *hyp.WF3))
 	if impl.Result.Err != nil {
